@@ -2,7 +2,7 @@
    Coq's standard library with the true square root (Reals; its axioms are listed by Print
    Assumptions).  Closed instances of the QR theorems at R.   (C16 / A6) *)
 From Coq Require Import Reals Lra Qreals RealField.
-From Amgcl Require Import Scalar Vec DirectUtil Qr QrMathAlg QrMathRefl QrMathCompute QrMathFactor QrMathMain QrMathLsq.
+From Amgcl Require Import Scalar Vec DirectUtil Qr QrMathAlg QrMathRefl QrMathCompute QrMathFactor QrMathMain QrMathLsq QrMathRank.
 Local Open Scope R_scope.
 
 Definition RS : Scalar :=
@@ -102,4 +102,44 @@ Proof.
   pose proof (minnorm_pythagoras RS_ring m n a (vget x) (vget b) Hsol Hker z Hz) as HP.
   pose proof (nrm2_nonneg n (fun c => (z c - vget x c)%R)) as H0.
   simpl in HP. simpl in H0. simpl. lra.
+Qed.
+
+(* the same with "full rank" in the literal sense (linearly independent columns / rows) *)
+Theorem qr_solve_least_squares_full_rank_R (cm : bool) m n (A b : vec RS) :
+  length A = (m * n)%nat -> (m <= length b)%nat -> (n <= m)%nat ->
+  let rs := qr_rs cm m n in let cs := qr_cs cm m n in
+  let a := fun r c => vget A (r * rs + c * cs) in
+  col_independent m n a ->
+  let x := qr_solve m n rs cs A b in
+  length x = n /\
+  forall z : nat -> RS,
+    @nrm2 RS m (fun r => (mulv n a (vget x) r - vget b r)%S) <= @nrm2 RS m (fun r => (mulv n a z r - vget b r)%S).
+Proof.
+  intros HLA HLb Hnm rs cs a Hind x.
+  assert (Hd : forall i, (i < n)%nat -> qr_R rs cs (fst (qr_compute m n rs cs A)) i i <> 0).
+  { intros i Hi. unfold qr_R. rewrite Nat.ltb_irrefl.
+    exact (qr_full_rank_diag RS_field RS_eqb RS_adj RS_abs RS_sqrt RS_real m n _ _ A (stride_ok cm m n) Hnm
+             (inb_ok cm m n A HLA) Hind i Hi). }
+  destruct (qr_solve_least_squares_R cm m n A b HLA HLb Hnm Hd) as (H1 & _ & H3). split; [exact H1|exact H3].
+Qed.
+
+Theorem qr_solve_min_norm_full_rank_R (cm : bool) m n (A b : vec RS) :
+  length A = (m * n)%nat -> (m <= length b)%nat -> (m < n)%nat ->
+  let rs := qr_rs cm m n in let cs := qr_cs cm m n in
+  let a := fun r c => vget A (r * rs + c * cs) in
+  col_independent n m (fun c r => a r c) ->
+  let x := qr_solve m n rs cs A b in
+  length x = n /\
+  (forall r, (r < m)%nat -> mulv n a (vget x) r = vget b r) /\
+  forall z : nat -> RS, (forall r, (r < m)%nat -> @mulv RS n a z r = vget b r) -> @nrm2 RS n (vget x) <= @nrm2 RS n z.
+Proof.
+  intros HLA HLb Hmn rs cs a Hind x.
+  assert (Hd : forall i, (i < m)%nat -> qr_R cs rs (fst (qr_compute n m cs rs A)) i i <> 0).
+  { intros i Hi. unfold qr_R. rewrite Nat.ltb_irrefl.
+    apply (qr_full_rank_diag RS_field RS_eqb RS_adj RS_abs RS_sqrt RS_real n m _ _ A
+             (StrideOK_swap _ _ _ _ (stride_ok cm m n)) (Nat.lt_le_incl _ _ Hmn)
+             (InB_swap _ _ _ _ A (inb_ok cm m n A HLA))); [|assumption].
+    intros y Hy j Hj. apply (Hind y); [|assumption].
+    intros r Hr. rewrite <- (Hy r Hr). apply sumn_ext. intros c Hc. unfold a, mv. f_equal. f_equal. lia. }
+  exact (qr_solve_min_norm_R cm m n A b HLA HLb Hmn Hd).
 Qed.
